@@ -1,11 +1,15 @@
 (* C07 — processing is idempotent: a second run changes and reports nothing.
    Property theorems only: each is closed by `exact <lemma>`. *)
-From AD Require Import Bytes Outcome Gen Gzip GzipProofs PycHeader PycHeaderProofs Date Zip ZipProofs Fs Helper HelperProofs Idem.
+From AD Require Import Bytes Outcome Gen Gzip GzipProofs Ar ArSpec ArProofs ArIdem PycHeader PycHeaderProofs Date Zip ZipProofs Fs Helper HelperProofs Idem.
 
 (* byte level: the handler finds nothing to change in its own output *)
 Theorem C07_gzip : forall epoch x y hm,
   bytes_ok x -> epoch < 2 ^ 32 -> gzip_process epoch x = Ok (y, hm) -> gzip_process epoch y = Ok (y, false).
 Proof. exact gzip_idempotent. Qed.
+
+Theorem C07_ar : forall e x y hm, (0 <= e < 10 ^ 12)%Z ->
+  ar_process (Some e) x = Ok (y, hm) -> ar_process (Some e) y = Ok (y, false).
+Proof. exact ar_idempotent. Qed.
 
 Theorem C07_pyc_zero_mtime : forall x y hm, pyc_zero_mtime x = Ok (y, hm) -> pyc_zero_mtime y = Ok (y, false).
 Proof. exact zero_mtime_idempotent. Qed.
@@ -35,6 +39,7 @@ Theorem C07_noop_untouched : forall e fault prof eager handler p f0 ip meta,
 Proof. exact not_replaced_untouched. Qed.
 
 Print Assumptions C07_gzip.
+Print Assumptions C07_ar.
 Print Assumptions C07_pyc_zero_mtime.
 Print Assumptions C07_zip_members_settled.
 Print Assumptions C07_second_run_noop.
